@@ -16,6 +16,10 @@ func genChain(r *rand.Rand) (text string, ordered bool) {
 	var cmds []string
 	n := 1 + r.IntN(4)
 	ordered = true // the base stream is newest-first and timestamps are unique in C06 datasets
+	if r.IntN(12) == 0 {
+		// sorting by a column an earlier command removed: legal, must not depend on the chunking (or crash)
+		return []string{"* | fields vid, level | sort +lat, +vid", "* | top limit=2 host | sort +lat", "* | fields - msg | bin span=100 lat | top limit=2 host | sort +lat, +vid", "* | bin span=100 code | rare code | sort -lat", "* | fields - code | sort -code, +vid | head 5"}[r.IntN(5)], false
+	}
 	numField := func() string { return []string{"code", "lat"}[r.IntN(2)] }
 	for i := 0; i < n; i++ {
 		switch r.IntN(16) {
